@@ -23,6 +23,9 @@ def _combo_scenarios(quick):
     tgt = dumps.base_target(2, regions=[{"name": "app0", "len": 3000, "lead": 5, "at_end": True, "above": "hole"}, {"name": "app1", "len": 64}, {"name": "code", "len": 8192, "exec": True}])
     scns.append({"id": "combo-partial", "target": tgt, "faults": {"start": 9, "pre_len": 0},
                  "writer": {"blamed": "main", "app_memory": [{"addr": {"region": "app0"}, "len": 3000 + 2 * 4096}, {"addr": {"region": "app1"}, "len": 64}]}})
+    # a target with an empty environment: a stream that exists and is empty (its directory entry has a type and a position but no bytes)
+    scns.append({"id": "combo-emptyenv", "target": dict(dumps.base_target(1, regions=[{"name": "code", "len": 4096, "exec": True}]), env_clear=True), "faults": {"start": 7, "pre_len": 300000},
+                 "writer": {"blamed": "main"}})
     # stream sizes spanning magnitudes: multi-MiB application regions and a thread list section of > 1 MiB
     big = dumps.base_target(2, regions=[{"name": "big0", "len": 3 * 1024 * 1024 + 17, "lead": 3}, {"name": "big1", "len": 1536 * 1024}, {"name": "one", "len": 1},
                                         {"name": "code", "len": 8192, "exec": True}])
@@ -210,6 +213,14 @@ def _shape_scenarios(n, seed, counts=(1, 2, 5, 21, 64)):
         if nt and rnd.random() < 0.5:
             f["name_fail"] = [{"slot": i} for i in range(nt) if rnd.random() < 0.4]
         scns.append({"id": f"shape{k}", "target": tgt, "writer": w, "faults": f})
+    # shapes in which a copy from the target comes back shorter than asked for (the descriptor must describe what was written):
+    # the crash IP just before the unreadable reservation merged into a file mapping; an application region with an unreadable tail;
+    # an application region inside a live stack (a second descriptor for bytes that are also part of a stack blob is a separate blob)
+    tgt = dumps.base_target(2, file_maps=[{"path": core.TARGET, "off": 0, "len": 0x2000, "exec": True, "guard_after": 1}],
+                            regions=[{"name": "app0", "len": 3000, "lead": 5, "at_end": True, "above": "hole"}])
+    scns.append({"id": "shape-short-reads", "target": tgt, "faults": {"start": 5, "pre_len": 0},
+                 "writer": {"blamed": {"slot": 0}, "crash_context": {"sp": {"thread_sp": 0}, "ip": {"file_map": 0, "off": 0x2000 - 16}},
+                            "app_memory": [{"addr": {"region": "app0"}, "len": 3000 + 4096}, {"addr": {"thread_sp": 1, "off": 32}, "len": 200}]}})
     return scns
 
 
@@ -265,6 +276,24 @@ def _softerr_scenarios(quick, seed):
     scns.append({"id": "direct-auxv-complete+fill-failpoint", "target": dumps.base_target(1), "writer": {"blamed": "main", "direct_auxv": {"phnum": 1, "phdr": "0x1000", "gate": "0x2000", "entry": "0x3000"}},
                  "faults": {"failspots": ["FillMissingAuxvInfo"]}, "expect": {"dsoFail": True}})
     scns.append({"id": "no-dt-debug", "target": {"threads": [], "linker_chain": {"names": ["/lib/a.so"], "no_debug": True}}, "writer": {"blamed": "main", "direct_auxv": "linker_chain"}, "expect": {"dsoFail": True}})
+    # files the writer copies made unreadable for the dump worker (private mount namespace): every single one, every pair (thorough:
+    # every subset), with the auxiliary values supplied by the caller or to be completed from the (possibly unreadable) file
+    import random
+    rnd = random.Random(seed)
+    release = [f for f in ("/etc/lsb-release", "/etc/os-release") if os.path.exists(f)]
+    paths = {"cpuinfo": ["/proc/cpuinfo"], "release": release, "cmdline": ["/proc/{pid}/cmdline"], "environ": ["/proc/{pid}/environ"], "auxv": ["/proc/{pid}/auxv"], "limits": ["/proc/{pid}/limits"]}
+    files = sorted(paths)
+    subsets = [frozenset(c) for n in range(1, len(files) + 1) for c in itertools.combinations(files, n)]
+    if quick:
+        subsets = [x for x in subsets if len(x) == 1] + rnd.sample([x for x in subsets if len(x) == 2], 4) + [frozenset(files)]
+    for k, sub in enumerate(subsets):
+        complete = k % 2 == 0
+        hist = [{"op": "fake", "path": pth, "unreadable": True} for f in sorted(sub) for pth in paths[f]] + [{"op": "dump"}]
+        w = {"blamed": "main"}
+        if complete:
+            w["direct_auxv"] = {"phnum": 1, "phdr": "0x1000", "gate": "0x2000", "entry": "0x3000"}
+        scns.append({"id": "unreadable/" + "+".join(sorted(sub)) + ("/direct" if complete else ""), "target": dumps.base_target(1), "writer": w, "history": hist, "unreadable": sorted(sub),
+                     "expect": {"dsoFail": complete or "auxv" in sub}})
     return scns
 
 
@@ -278,7 +307,11 @@ def c11(ck):
     scns = _softerr_scenarios(quick, ck.seed)
     runs = dumps.run_scenarios(ck, scns, "c11")
     evs, sevs = [], []
+    unavailable = 0
     for r in runs:
+        if any(x.get("ev") == "fake_unavailable" for x in r.get("other", [])):
+            unavailable += 1            # no privilege for a private mount namespace here: these plans stay model-only
+            continue
         if not r["dumps"]:
             evs.append({"ev": "c11", "origin": r["id"], "fp": [], "nameFail": 0, "threads": 1, "exited": 0, "rsp0": 0, "prinNotRef": False, "dsoFail": False,
                         "auxvComplete": False, "outcome": r["end"]["worker"] if r["end"] else "?", "error": "", "wellFormed": False, "paths": [], "present": []})
@@ -304,7 +337,10 @@ def c11(ck):
     ck.cov["exhaustive"] = True
     ck.cov["decided_by"] = {"result ok, streams present, bag and order of reported failures": "spec", "flattening of the JSON tree to paths": "harness projection"}
     ck.sample({"c11_event": evs[7]})
-    ck.assumptions += ["failures of the /etc/*-release and /proc/cpuinfo copies (needing a private mount namespace) are exercised only on the model", "stop_timeout raised to 5 s so that load cannot produce a spontaneous Timeout soft error"]
+    ck.cov["file_substitution_unavailable"] = unavailable
+    if unavailable:
+        ck.assumptions.append("unreadable-file plans could not be exercised here (no private mount namespace): model-only")
+    ck.assumptions += ["failures of the /proc/<tid>/status and /proc/<pid>/maps copies are not induced (the same files feed required steps)", "stop_timeout raised to 5 s so that load cannot produce a spontaneous Timeout soft error"]
     return runs
 
 
@@ -534,6 +570,12 @@ def _stack_scenarios(quick, seed):
     threads.append({"mode": "pause", "stack_pages": 2, "sp_abs_below": 24, "below": "guard"})
     threads.append({"mode": "pause", "stack_pages": 2, "sp_abs_below": 2000, "below": "hole"})
     scns.append({"id": "stack/nolimit", "target": {"threads": threads}, "writer": {"blamed": "main"}})
+    # (a') stacks and other mappings BELOW the executable (fixed low addresses): the dumper's mapping list is then not in address
+    #      order (the entry-point mapping is moved to its front)
+    threads = [{"mode": "pause", "stack_pages": 2 + i, "sp_off": 1000 + 700 * i, "below": ["guard", "hole", "mapped"][i % 3], "low_addr": 0x10000000 + 0x100000 * i} for i in range(4)]
+    threads.append({"mode": "pause", "stack_pages": 2, "sp_abs_below": 24, "below": "guard", "low_addr": 0x20000000})
+    threads += [{"mode": "pause", "stack_pages": 1, "sp_off": 500}]
+    scns.append({"id": "stack/low-mappings", "target": {"threads": threads, "regions": [{"name": "lowdata", "len": 8192, "low_addr": 0x8000000}]}, "writer": {"blamed": {"slot": 1}, "crash_context": {"sp": {"thread_sp": 1}, "ip": "0x1000"}}})
     # (b) size limit around the estimate threshold, 24..64 threads, SP offsets on both sides of 2048
     for k, (n, lim) in enumerate([(24, 1000), (24, 10**9), (40, 300000), (64, 5000)] if quick else [(n, l) for n in (21, 24, 33, 64) for l in (1000, 200000, 262000, 263000, 330000, 10**9)]):
         threads = [{"mode": "pause", "stack_pages": 1 + (i % 3), "sp_off": [100, 2047, 2048, 3000, 4000, 1024, 2500][i % 7] + 4096 * (i % (1 + i % 3))} for i in range(n - 1)]
@@ -634,6 +676,12 @@ def _mem_scenarios(quick, seed):
         if k < len(ipoffs) or rnd.random() < 0.7:
             w["crash_context"] = {"sp": {"thread_sp": 0}, "ip": ip}
         scns.append({"id": f"mem/{k}/{name}", "target": tgt, "writer": w})
+    # the crash IP close to the end of the readable part of a file mapping that the dumper merges with the inaccessible
+    # reservation behind it (one mapping, whose tail cannot be read): the window is what could be read, and says so
+    for k, off in enumerate([-16, -128, -129, -1]):
+        tgt = dumps.base_target(2, file_maps=[{"path": core.TARGET, "off": 0, "len": 0x2000, "exec": True, "guard_after": 1 + k % 2}])
+        w = {"blamed": {"slot": 0}, "crash_context": {"sp": {"thread_sp": 0}, "ip": {"file_map": 0, "off": 0x2000 + off}}}
+        scns.append({"id": f"mem/ip-before-reservation/{off}", "target": tgt, "writer": w})
     # application regions that lie inside a dumped thread stack (a buffer in a live frame), with and without sanitising:
     # the region must still be the target's bytes (the stack copy next to it may have been rewritten)
     for k, san in enumerate([True, False]):
@@ -766,6 +814,12 @@ def _c03_scenarios(quick, seed):
         s["target"] = zt
         scns.append(s)
     scns.append(mk("stop-timeout/zero", [{"at": {"hook": "suspended"}, "do": "signal", "sig": "rt", "to_slot": 0}], writer={"blamed": "main", "stop_timeout_ms": 0}))
+    # every enumerated thread is dropped (every thread, the main one included, runs with rsp = 0 like a sandboxed process) while the process
+    # lives: the dump goes on without threads, and the process must be running again afterwards
+    for k, n in enumerate([1, 3]):
+        s = mk(f"all-dropped/{k}", [], writer={"blamed": "main"})       # (no signals: a thread without a stack cannot run a handler)
+        s["target"] = {"shared": True, "threads": [{"mode": "rsp0"} for _ in range(n)], "main_rsp0": True}
+        scns.append(s)
     # two dumps in a row on one writer, signals in between and during
     scns.append(dict(mk("twice", [{"at": {"hook": "suspended"}, "do": "signal", "sig": "rt", "to_slot": 0}]), history=[{"op": "dump"}, {"op": "dump", "actions": [{"at": {"hook": "attach:ok", "slot": 1}, "do": "signal", "sig": "rt", "to_slot": 1}]}]))
     return scns
@@ -775,6 +829,8 @@ def c03(ck):
     quick = ck.tier == "quick"
     util.mc_design(ck, "Ptrace", "MC_Ptrace", "tracer/kernel/target model: 3 threads (one sandbox thread), a queued signal per thread sent at any moment, thread exit, stop_process succeeding/failing/timing out, a hard failure at any stream step; invariants NoneLeftAttached, NoDup, NoLoss, C04 schedule invariants; liveness: every thread eventually runs with all signals delivered",
                    workers=6, timeout=2400)
+    util.mc_design(ck, "Ptrace", "MC_Ptrace_allsandbox", "the same model with every thread (the leader included) a sandbox thread: all are attached, skipped and dropped, the dump goes on without threads; same invariants and liveness",
+                   workers=4, timeout=900)
     # (a) the attach race under a signal flood, on the public suspend_thread / resume_thread
     fout = os.path.join(ck.work, "flood.ndjson")
     core.drive("flood", fout, seed=ck.seed, random=3000 if quick else 20000, extra=["--rounds", "2" if quick else "8", "--workdir", ck.work], timeout=2400)
@@ -821,6 +877,8 @@ def ptrace_seq_events(run, d):
     order = [report["pid"]] + tids
     idx = {t: i + 1 for i, t in enumerate(order)}
     sandbox = [idx[t["tid"]] for t in report["threads"] if t.get("mode") == "rsp0"]
+    if scn["target"].get("main_rsp0") and report["pid"] in idx:
+        sandbox.append(idx[report["pid"]])
     evs = []
     failspots = scn.get("faults", {}).get("failspots", [])
     pending = None
